@@ -203,6 +203,7 @@ type solveOpts struct {
 	seed     int
 	jobs     int
 	short    map[string]bool // obligation names with a 2 s budget (open known findings)
+	patience int             // budget multiplier (retry pass for obligations that ran out of time)
 }
 
 func solveAll(obls []*Obligation, opts solveOpts) {
@@ -261,8 +262,13 @@ func solveOne(o *Obligation, file string, opts solveOpts) *SolveResult {
 	// quick mode: z3-new alone for a short while (most goals take milliseconds), then race
 	// z3-new and cvc5 with the full budget, then z3 4.8 as a last resort.
 	bvUnit := o.Unit != nil && o.Unit.bv
+	pat := opts.patience
+	if pat < 1 {
+		pat = 1
+	}
+	opts.secs *= pat
 	if !opts.thorough && !bvUnit {
-		status, out, ms := runSolver(solvers[0], file, 2, opts.seed)
+		status, out, ms := runSolver(solvers[0], file, 2*pat, opts.seed)
 		res.Tried = append(res.Tried, fmt.Sprintf("%s:%s:%dms", solvers[0].name, status, ms))
 		if status == "unsat" || status == "sat" {
 			res.Status, res.Solver, res.Ms, res.Output = status, solvers[0].name, ms, out
@@ -278,7 +284,7 @@ func solveOne(o *Obligation, file string, opts solveOpts) *SolveResult {
 		// unsat of the full query (fewer assumptions); sat there is a counterexample candidate
 		// modulo the axioms (the obligation fails either way, the model feeds the replay).
 		if qf, dropped := dropQuantified(file); dropped {
-			status, out, ms := runSolver(solvers[0], qf, 2, opts.seed)
+			status, out, ms := runSolver(solvers[0], qf, 2*pat, opts.seed)
 			res.Tried = append(res.Tried, fmt.Sprintf("%s(qf):%s:%dms", solvers[0].name, status, ms))
 			if status == "unsat" {
 				res.Status, res.Solver, res.Ms, res.Output = status, solvers[0].name+"(qf)", ms, out
@@ -291,7 +297,7 @@ func solveOne(o *Obligation, file string, opts solveOpts) *SolveResult {
 		// next: only the quantified facts that share a spec function or heap symbol with the goal
 		// (dropping assumptions is sound for a proof; a failure here decides nothing)
 		if rel, ok := goalRelevant(file); ok {
-			status, out, ms := runSolver(solvers[0], rel, 3, opts.seed)
+			status, out, ms := runSolver(solvers[0], rel, 3*pat, opts.seed)
 			res.Tried = append(res.Tried, fmt.Sprintf("%s(rel):%s:%dms", solvers[0].name, status, ms))
 			if status == "unsat" {
 				res.Status, res.Solver, res.Ms, res.Output = status, solvers[0].name+"(rel)", ms, out
